@@ -148,6 +148,28 @@ void verif_post(const char *op, const volatile void *addr, int order, unsigned l
 	fr->ops++;
 }
 
+/* gap x (C03 probe, implementation side only): the harness is linked with -Wl,--wrap=list_extract; immediately after
+ * fibre_scheduler_next() has taken its pick from the run queue - the moment it knows whether it will dispatch - the
+ * interrupt calls scripted for gap x run.  Not an atomic operation of the library, so the Lean model has no such gap:
+ * histories using it are judged by the property text alone (the request completed before the pass's final check, so the
+ * pass must return the time it was given). */
+list_node_t *__real_list_extract(list_t *list);
+list_node_t *__wrap_list_extract(list_t *list)
+{
+	list_node_t *r = __real_list_extract(list);
+	if (depth && list == &kernel.runq && stack[depth - 1].c->type == 'N') {
+		call_t *c = stack[depth - 1].c;
+		for (int i = 0; i < c->nchild; i++) {
+			call_t *ch = &calls[c->child[i]];
+			if (ch->k == -1 && ch->post == 2) {
+				out("X");
+				exec_call(ch);
+			}
+		}
+	}
+	return r;
+}
+
 static void exec_call(call_t *c)
 {
 	if (depth >= MAXDEPTH) { out("!!too-deep"); return; }
@@ -278,6 +300,10 @@ static void default_cfg(void)
 static int parse_gap(const char *s, int *k, int *post)
 {
 	char *end;
+	if (s[0] == 'x' && !s[1]) {          /* gap x: right after the scheduler took its pick from the run queue (list_extract) */
+		*k = -1; *post = 2;
+		return 1;
+	}
 	long v = strtol(s, &end, 10);
 	if (end == s || v < 0 || (end[0] != 'a' && end[0] != 'b') || end[1])
 		return 0;
